@@ -41,8 +41,9 @@ import (
 const googleVarGUID = "a2858e46-a37f-456a-8c79-0c1fe48b65ff"
 
 var (
-	rawBlob   = []byte("endorsement bytes carried by the raw locator")
-	varBlob   = []byte("endorsement bytes stored in the UEFI variable")
+	rawBlob = []byte("endorsement bytes carried by the raw locator")
+	// larger than any fixed-size read buffer: the variable's data is returned whole, byte for byte
+	varBlob   = bytes.Repeat([]byte("endorsement bytes stored in the UEFI variable; "), 2800)
 	quoteBlob = []byte("endorsement bytes in the quote's certificate table")
 	provBlob  = []byte("endorsement bytes in the provider's certificate table")
 	netBlob   = []byte("endorsement bytes fetched from the network")
@@ -192,6 +193,8 @@ func runSources(r srcRow) (out []byte, errText string, urls []string, err error)
 		evts = []*eventlog.TCGPCREvent2{sp(eventlog.RIMLocationVariable, varLoc, g)}
 	case "var_ok_uri", "var_missing_uri":
 		evts = []*eventlog.TCGPCREvent2{sp(eventlog.RIMLocationURI, []byte(logURI), g), sp(eventlog.RIMLocationVariable, varLoc, g)}
+	case "var_ok_then_raw", "var_missing_then_raw":
+		evts = []*eventlog.TCGPCREvent2{sp(eventlog.RIMLocationVariable, varLoc, g), sp(eventlog.RIMLocationLocal, []byte("/some/local/path"), g), sp(eventlog.RIMLocationRaw, rawBlob, g)}
 	case "local_kind":
 		evts = []*eventlog.TCGPCREvent2{sp(eventlog.RIMLocationLocal, []byte("/some/local/path"), g)}
 	case "uri":
@@ -252,7 +255,7 @@ func runSources(r srcRow) (out []byte, errText string, urls []string, err error)
 
 func localOf(r srcRow) []byte {
 	switch {
-	case r.Evlog == "raw" || r.Evlog == "raw_uri":
+	case r.Evlog == "raw" || r.Evlog == "raw_uri" || strings.HasSuffix(r.Evlog, "_then_raw"):
 		return rawBlob
 	case strings.HasPrefix(r.Evlog, "var_ok"):
 		return varBlob
@@ -295,10 +298,24 @@ func urlKind(u string) string {
 	case objRe.MatchString(u):
 		// whose measurement names the object: the supplied quote's (SNP measurement or TDX MRTD) or the
 		// local provider's
+		// (an SNP measurement names an object of the sevsnp/ tree, an MRTD one of the tdx/ tree)
+		isSnp := strings.Contains(u, "/sevsnp/")
 		if strings.Contains(u, hex.EncodeToString(provMeas)) {
+			if !isSnp {
+				return "obj_wrong_technology"
+			}
 			return "obj_full_provider"
 		}
-		if strings.Contains(u, hex.EncodeToString(quoteMeas)) || (tdxMrtdHex != "" && strings.Contains(u, tdxMrtdHex)) {
+		if strings.Contains(u, hex.EncodeToString(quoteMeas)) {
+			if !isSnp {
+				return "obj_wrong_technology"
+			}
+			return "obj_full_quote"
+		}
+		if tdxMrtdHex != "" && strings.Contains(u, tdxMrtdHex) {
+			if isSnp {
+				return "obj_wrong_technology"
+			}
 			return "obj_full_quote"
 		}
 		return "obj_full_other"
@@ -358,10 +375,17 @@ func RunC16(run *vk.Run) {
 			run.Infra(err)
 			return
 		}
-		out2, et2, urls2, _ := runSources(r)
 		rep := map[string]any{"row": r, "returned": blobName(out), "error": et, "urls": urls}
-		if blobName(out) != blobName(out2) || (et == "") != (et2 == "") || strings.Join(urls, " ") != strings.Join(urls2, " ") {
-			run.Violation("nondeterministic", fmt.Sprintf("two extractions from the same sources differ: %+v", r), rep)
+		reps := 1
+		if strings.HasSuffix(r.Evlog, "_then_raw") {
+			reps = 6 // several kinds of local locator: any order dependence shows up as differing repetitions
+		}
+		for k := 0; k < reps; k++ {
+			out2, et2, urls2, _ := runSources(r)
+			if blobName(out) != blobName(out2) || (et == "") != (et2 == "") || strings.Join(urls, " ") != strings.Join(urls2, " ") {
+				run.Violation("nondeterministic", fmt.Sprintf("two extractions from the same sources differ: %+v", r), rep)
+				break
+			}
 		}
 		if strings.HasPrefix(et, "PANIC") {
 			run.Violation("panic", fmt.Sprintf("extraction panics: %s: %+v", et, r), rep)
@@ -375,6 +399,10 @@ func RunC16(run *vk.Run) {
 			}
 		}
 		for _, u := range urls {
+			if urlKind(u) == "obj_wrong_technology" {
+				run.Violation("fetch-from-other-technology", fmt.Sprintf("the object requested for the attestation's measurement lies in the other technology's tree (%s): object names are separated by technology: %+v", u, r), rep)
+				continue
+			}
 			if k := urlKind(u); !strings.HasPrefix(k, "obj_full") && k != "uri_from_log" {
 				run.Violation("fetch-without-measurement:"+k, fmt.Sprintf("a fetch was issued for %q, which is not derived from a full-length measurement: %+v", u, r), rep)
 			}
